@@ -188,6 +188,34 @@ def exact_state(obj):
     return hashlib.sha1(repr(out).encode()).hexdigest()
 
 
+def key_tree(obj, depth=0):
+    """Names of the stored fields (recursively for nested shape objects)."""
+    t = {}
+    for k, v in vars(obj).items():
+        t[k] = key_tree(v, depth + 1) if (hasattr(v, "__dict__") and depth < 3 and not isinstance(v, np.ndarray)) else None
+    return t
+
+
+def exact_state_on(obj, tree):
+    """Bit-exact fingerprint restricted to the fields named in `tree` (so that private memo
+    fields that appear later do not count as a change of the shape)."""
+
+    class _V:
+        pass
+
+    def restrict(o, t):
+        v = _V()
+        for k, sub in t.items():
+            if k in vars(o):
+                x = vars(o)[k]
+                v.__dict__[k] = restrict(x, sub) if (sub is not None and hasattr(x, "__dict__")) else x
+            else:
+                v.__dict__["<missing:%s>" % k] = True
+        return v
+
+    return exact_state(restrict(obj, tree))
+
+
 # ---------------------------------------------------------------------------
 # operation alphabet (by reflection)
 
@@ -242,6 +270,19 @@ def discover_ops(base):
     for mname in MUTATORS:
         if callable(getattr(cls, mname, None)):
             ops.append("call:" + mname)
+    # the documented handle to the underlying polytope of a rounded shape: resizing / moving / reorienting
+    # the core through it is a public mutation of the rounded shape as well
+    for handle in ("polyhedron", "polygon"):
+        core = getattr(base, handle, None) if isinstance(getattr(cls, handle, None), property) else None
+        if core is not None and getattr(base, handle) is core:
+            for cname, m in public_properties(type(core)):
+                if isinstance(m, property) and m.fset and cname in ("volume", "surface_area", "area", "perimeter", "centroid"):
+                    if cname == "centroid":
+                        ops.append("core:set:centroid=rel")
+                    else:
+                        ops.append("core:set:%s*2" % cname)
+            if callable(getattr(type(core), "diagonalize_inertia", None)):
+                ops.append("core:call:diagonalize_inertia")
     # reads that write: any getter/query whose evaluation changes the instance dictionary
     for name, m in props:
         c = copy.deepcopy(base)
@@ -279,6 +320,9 @@ def _reseed():
 def apply_op(obj, op):
     _reseed()
     kind, rest = op.split(":", 1)
+    if kind == "core":
+        core = getattr(obj, "polyhedron", None) if hasattr(obj, "polyhedron") else getattr(obj, "polygon")
+        return apply_op(core, rest)
     if kind == "set":
         if "=" in rest and rest.split("=")[0] in CENTRE_LIKE:
             name, tag = rest.split("=")
